@@ -646,7 +646,12 @@ def ymd(ylo, yhi, for_datetime):
             d = min(d, cal.month_len(y, m))
         if y == 1582 and m == 10 and 5 <= d <= 14:
             d = 15
-        return [y, m, d + f if f else d]
+        if not f:
+            return [y, m, d]
+        v = d + f
+        if v >= d + 1:                       # 31 + 0.99999999999999994 rounds to 32.0
+            v = math.nextafter(float(d + 1), 0.0)
+        return [y, m, v]
     yr = st.one_of(st.integers(ylo, yhi), st.integers(max(ylo, 1900), min(yhi, 2100)),
                    st.sampled_from([ylo, yhi, max(ylo, 1582), min(yhi, 2000)]))
     frac = st.one_of(st.just(0.0), st.floats(0, 1, exclude_max=True), st.sampled_from([0.5, 0.25]))
@@ -676,10 +681,10 @@ STRATS = {
 
 # clause -> (shards in the quick tier, cases per shard)
 PLAN = {
-    "reflect_geo": (2, 1000), "reflect_app": (2, 1000),
-    "frame_j2000": (2, 1000), "rect_mean": (1, 1000), "rect_j2000": (2, 1000),
-    "rect_b1950": (2, 1000), "rect_equinox": (4, 800),
-    "obliquity": (2, 2000), "nutation": (2, 1200), "coarse": (2, 1000),
+    "reflect_geo": (2, 2500), "reflect_app": (2, 2500),
+    "frame_j2000": (2, 2500), "rect_mean": (1, 2500), "rect_j2000": (2, 2500),
+    "rect_b1950": (2, 2500), "rect_equinox": (4, 2000),
+    "obliquity": (2, 5000), "nutation": (2, 3000), "coarse": (2, 2500),
 }
 
 
@@ -691,7 +696,7 @@ def tasks(tier, seed):
                 out.append(Task("t_given", clause=clause, shard=sh, n=n))
         else:
             for sh in range(shards * 4):
-                out.append(Task("t_given", clause=clause, shard=sh, n=n * 10))
+                out.append(Task("t_given", clause=clause, shard=sh, n=n * 5))
     return out
 
 
